@@ -46,8 +46,10 @@ def documented_heuristics():
 # ------------------------------------------------------------------------------------ generation
 def gen_lines_for(rng, target_consumed, subsampling, ncols=None, malformed=0.0, opts=None):
     """Workload whose number of consumed well-formed rows is exactly target_consumed."""
-    for attempt in range(6):
-        n = int(subsampling * (target_consumed + 2) / max(0.2, 1 - malformed)) + subsampling + 3 + attempt * 10
+    for attempt in range(12):
+        if attempt >= 8:
+            malformed = 0.0          # the malformed-line lottery kept eating the selected positions: fall back to a clean file
+        n = int(subsampling * (target_consumed + 2) / max(0.2, 1 - malformed) * (1.0 + 0.5 * attempt)) + subsampling + 3 + attempt * 10
         wl = wlmod.gen_workload(rng, n, ncols=ncols, malformed=malformed, opts=opts)
         c = 0
         cut = None
